@@ -411,8 +411,12 @@ parsefeatures:
 			sf.total++
 
 			// Always add the feature to the list of features, even if we don't
-			// support it, it just won't contain any parse output.
-			s.features[tok.Name.Space] = nil
+			// support it, it just won't contain any parse output (but do not erase
+			// the output of a feature in the same namespace that was already
+			// parsed).
+			if _, seen := s.features[tok.Name.Space]; !seen {
+				s.features[tok.Name.Space] = nil
+			}
 
 			feature, ok := getFeature(tok.Name, features)
 			if ok {
